@@ -1,4 +1,29 @@
 add("C11", "checks/c11_c12_status.c", ["default-asan", "default-plain"], ["default-asan", "default-plain"],
-    "placeholder",
+    "cases = single operations executed on the real library, each followed by SCPI_RegGet of all ten registers + SCPI_ErrorCount and "
+    "an evaluation of the five clauses of the statement (evaluations = transitions). Phase bfs: breadth-first search from a fresh "
+    "context over every state reachable with a bounded operation alphabet (a slice: SCPI_RegSet/SetBits/ClearBits with every subset "
+    "of the slice's representative bits on SRE and on every event, enable and condition register - never on STB -, SCPI_ErrorPush of "
+    "one code per standard-event class inside the slice + one code of no class, SCPI_ErrorPop, SCPI_ErrorClear, and 19 commands "
+    "(*CLS *ESR? *ESE[?] *SRE[?] *STB? *OPC STAT:OPER[:EVEN]? :COND? :ENAB[?] STAT:QUES... STAT:PRES SYST:ERR? SYST:ERR:COUN?) "
+    "through SCPI_Input with a table of the library's own handlers; queue capacity 2); state = registers[] + queue count, "
+    "snapshot/restore = byte copy of scpi_t and queue storage; every reachable state is expanded with every operation "
+    "(bfs.states / bfs.transitions). quick: 16 slices = each register group alone with three bits {0x40,0x0200,0x01} (ESR also "
+    "{0x20,0x10,0x08} and {0x04,0x80,0x02}) x SRE{group bit,0x04,0x40} x queue, and all groups together with one bit each x "
+    "SRE{0x20,0x80,0x08,0x04,0x40} (9 bit assignments covering every ESR class bit) plus two with idle SRE bits; thorough (gcc build) "
+    "adds 16 slices with two of the three bits on all nine registers at once. Phase walk: random walks of 500 operations over full "
+    "16-bit values, queue capacity 1-4, three spellings per command. distinct_nontrivial = distinct (registers, count) states "
+    "(all BFS states, every 16th walk state); a clause broken by an operation is reported once, states in which the invariant is "
+    "already broken are counted and not expanded",
     exhaustive=dict(quick=True, thorough=True),
-    technique="placeholder", level_text="placeholder", level_note="placeholder", assumptions=[])
+    technique="runtime invariant monitor over an explicit-state breadth-first exploration of the real library (snapshot/restore by memory copy) "
+              "plus random walks; oracle = the five iff-clauses of the statement on values read back through the public API",
+    level_text="exploration by execution: the bounded state spaces named in the rule are enumerated completely on the compiled library "
+               "(quick 16 slices, ~2.7e5 states / 4.7e7 transitions per build; thorough +16 slices of ~1.6e6 states, ~3e9 transitions); "
+               "16-bit values outside the representative bits and longer queues are sampled by random walks (quick 2.5e6, thorough 1.1e8 steps)",
+    level_note="exhaustive refers to the bounded alphabets (three representative bits per register, queue capacity 2, listed operations), "
+               "not to all 16-bit values; direct writes to STB are excluded by the statement; state identity ignores queue contents "
+               "(they never feed back into registers); trusted: the monitor's 30 lines, memcpy snapshots of scpi_t at quiescent points",
+    assumptions=["a byte copy of scpi_t plus the queue storage is an exact snapshot when errors carry no text (default configuration, text-less pushes only)",
+                 "states are identified by registers[] and queue count; queue contents and fifo indices do not influence register evolution",
+                 "custom registers (USE_CUSTOM_REGISTERS) are not configured",
+                 "gcc -O2 and clang -O1 ASan+UBSan builds of the working tree"])
